@@ -101,6 +101,49 @@ def main():
         ("predicate owner", r"if !Input::is_predicate_owner_valid\(owner, &\*\*predicate\) =>\s*\{\s*Err\(ValidityError::InputPredicateOwner \{ index \}\)"),
     ], "check_signature")
 
+    # ---- the checked-transaction entry: every into_checked_basic recomputes the metadata UNCONDITIONALLY first
+    ct = strip_comments(read("fuel-vm/src/checked_transaction/types.rs"))
+    steps = []
+    for m in re.finditer(r"impl IntoChecked for (\w+) \{", ct):
+        ty = m.group(1)
+        j = ct.index("{", m.end() - 1)
+        depth, e = 0, None
+        for k in range(j, len(ct)):
+            if ct[k] == "{": depth += 1
+            elif ct[k] == "}":
+                depth -= 1
+                if depth == 0:
+                    e = k; break
+        ib = ct[j:e]
+        b = body_of(ib, r"fn into_checked_basic\(\s*mut self,\s*block_height: BlockHeight,\s*consensus_params: &ConsensusParameters,\s*\) -> Result<Checked<Self>, CheckError> \{", "%s::into_checked_basic" % ty)
+        flat = re.sub(r"\s+", " ", b).strip()
+        head = "let chain_id = consensus_params.chain_id(); self.precompute(&chain_id)?; self.check_without_signatures(block_height, consensus_params)?;"
+        if not flat.startswith(head):
+            raise TranslateError("%s::into_checked_basic no longer starts with the unconditional `self.precompute(&chain_id)?;` followed by check_without_signatures: %s" % (ty, flat[:160]))
+        if "precompute" in flat[len(head):] or "is_computed" in flat:
+            raise TranslateError("%s::into_checked_basic mentions precompute/is_computed elsewhere" % ty)
+        steps.append((ty, ["precompute", "check_without_signatures"]))
+    if sorted(t for t, _ in steps) != ["Blob", "Create", "Mint", "Script", "Upgrade", "Upload"]:
+        raise TranslateError("into_checked_basic impls found for %s" % [t for t, _ in steps])
+    cm = strip_comments(read("fuel-vm/src/checked_transaction.rs"))
+    need(re.search(r"self\.into_checked_basic\(block_height, consensus_params\)\?\s*\.check_signatures\(&consensus_params\.chain_id\(\)\)\?\s*\.check_predicates\(", cm), "into_checked = basic, signatures, predicates")
+    need(re.search(r"pub fn check_signatures\(mut self, chain_id: &ChainId\) -> Result<Self, CheckError> \{\s*if !self\.checks_bitmask\.contains\(Checks::Signatures\) \{\s*self\.transaction\.check_signatures\(chain_id\)\?;", cm), "Checked::check_signatures")
+    # precompute clears the metadata before computing; id() returns the cached id when present
+    clears = []
+    for rel, ty in [("script.rs", "Script"), ("create.rs", "Create"), ("upload.rs", "Upload"), ("blob.rs", "Blob"), ("upgrade.rs", "Upgrade"), ("mint.rs", "Mint")]:
+        src = strip_comments(read("fuel-tx/src/transaction/types/" + rel))
+        pb = body_of(src, r"fn precompute\(&mut self, chain_id: &ChainId\) -> Result<\(\), ValidityError> \{", ty + "::precompute")
+        flat = re.sub(r"\s+", " ", pb).strip()
+        if not re.match(r"self\.metadata = None; self\.metadata = Some\(", flat):
+            raise TranslateError("%s::precompute no longer clears the metadata before recomputing it: %s" % (ty, flat[:120]))
+        clears.append(ty)
+    chg = strip_comments(read("fuel-tx/src/transaction/types/chargeable_transaction.rs"))
+    idb = body_of(chg, r"fn id\(&self, chain_id: &ChainId\) -> Bytes32 \{", "ChargeableTransaction::id")
+    ordered(idb, [("cached id", r"if let Some\(id\) = self\.cached_id\(\) \{\s*return id;"), ("clone", r"let mut clone = self\.clone\(\);"),
+                  ("prepare_sign", r"clone\.prepare_sign\(\);"), ("clear witnesses", r"clone\.witnesses_mut\(\)\.clear\(\);"),
+                  ("hash", r"compute_transaction_id\(chain_id, &mut clone\)")], "ChargeableTransaction::id")
+    ordered(chg, [("check_signatures uses self.id", r"fn check_signatures\(&self, chain_id: &ChainId\) -> Result<\(\), ValidityError> \{\s*let id = self\.id\(chain_id\);")], "ChargeableTransaction::check_signatures")
+
     L = ["/- GENERATED by tools/gen/predicates.py from fuel-vm/src/error.rs, fuel-vm/src/interpreter/executors/{main,predicate}.rs,",
          "   fuel-tx/src/transaction/validity.rs — do not edit -/", "namespace FuelVerif.Gen.Predicates", "",
          "/-- arms of `PredicateVerificationFailed::interpreter_error`, in order: (pattern, constructor) -/",
@@ -109,6 +152,10 @@ def main():
          "def successReturn : Nat := %d" % success,
          "/-- `if r == N` in verify_predicate -/",
          "def verifyReturnOne : Nat := %d" % vone,
+         "/-- first steps of each `IntoChecked::into_checked_basic` body (fuel-vm/src/checked_transaction/types.rs), in order -/",
+         "def intoCheckedBasicSteps : List (String × List String) := [" + ", ".join('("%s", [%s])' % (t, ", ".join('"%s"' % x for x in st)) for t, st in steps) + "]",
+         "/-- transaction kinds whose `precompute` starts with `self.metadata = None;` -/",
+         "def precomputeClearsFirst : List String := [" + ", ".join('"%s"' % t for t in clears) + "]",
          "", "end FuelVerif.Gen.Predicates", ""]
     ch = write_if_changed("Predicates.lean", "\n".join(L))
     print("predicates: %d interpreter_error arms, success value %d/%d, shapes of check_predicate/finalize/run_predicates/run_predicate_async/check_signature ok%s" % (len(arms), success, vone, " (changed)" if ch else ""))
